@@ -121,7 +121,10 @@ def stale_carries(ctx: Ctx, q):
       decides="loading never invents an attribute value or a member from the preceding sibling")
 def c11_r1(ctx: Ctx, rule):
     res = RuleResult()
-    for q in (XM + "._extract_attributes", XM + ".ProvXMLSerializer.deserialize_subtree", JS + ".decode_json_container", JS + ".decode_json_document"):
+    targets = []
+    for q0 in (XM + "._extract_attributes", XM + ".ProvXMLSerializer.deserialize_subtree", JS + ".decode_json_container", JS + ".decode_json_document"):
+        targets += [x for x in ctx.helper_closure(q0) if x not in targets and (x.startswith(XM) or x.startswith(JS))]
+    for q in targets:
         stale, examined = stale_carries(ctx, q)
         seen = set()
         for loop, v, n in examined:
@@ -196,7 +199,10 @@ def optional_uses(ctx: Ctx, q):
       decides="empty strings and default-namespace attribute names survive the PROV-XML reader")
 def c02_r4(ctx: Ctx, rule):
     res = RuleResult()
-    for q in (XM + "._extract_attributes", XM + ".ProvXMLSerializer.deserialize_subtree", XM + ".xml_qname_to_QualifiedName"):
+    targets = []
+    for q0 in (XM + "._extract_attributes", XM + ".ProvXMLSerializer.deserialize_subtree", XM + ".xml_qname_to_QualifiedName"):
+        targets += [x for x in ctx.helper_closure(q0) if x not in targets and x.startswith(XM)]
+    for q in targets:
         for n, guarded, how in optional_uses(ctx, q):
             res.ob("%s: read of %s: %s" % (short(q), norm(n), ("guarded (%s)" % how) if guarded else "UNGUARDED"))
             if not guarded:
@@ -413,7 +419,12 @@ def c07_r5(ctx: Ctx, rule):
       decides="a record without attributes (an empty object) still counts as present; multiplicity is kept")
 def c01_r8(ctx: Ctx, rule):
     res = RuleResult()
-    q = JS + ".encode_json_container"
+    q0 = JS + ".encode_json_container"
+    q = q0
+    for cand in ctx.helper_closure(q0):
+        if any(isinstance(n, ast.Compare) and isinstance(n.ops[0], (ast.In, ast.NotIn)) and norm(n.left) == "identifier" for n in walk_function(ctx.fn(cand).node)) or any(
+                isinstance(n, ast.Call) and call_name(n) == "get" and n.args and norm(n.args[0]) == "identifier" for n in walk_function(ctx.fn(cand).node)):
+            q = cand
     fi = ctx.fn(q)
     # variables holding what the container stores under an identifier
     holders = {}
